@@ -98,6 +98,8 @@ pub fn run(p: &Params) -> Report {
     let mut i = 0u64;
     let mut p2 = p.clone();
     p2.seed = p.seed ^ 0xC02;
+    let bin = p.val("adlt_bin");
+    let bin_every: u64 = p.val("bin_every").and_then(|v| v.parse().ok()).unwrap_or(97);
     while (p.cases == 0 || i < p.cases) && !p.time_up() {
         // reuse the C01 generator but with valid micros
         let mut rng = Rng::new(p2.case_seed(i));
@@ -205,7 +207,79 @@ pub fn run(p: &Params) -> Report {
             rep.violation("file:order-or-content", d, json!({"kind":"c02-file","export_hex": hex(&export)}));
         } else if export2 != export {
             rep.violation("file:export-of-export", format!("{} vs {} bytes", export2.len(), export.len()), json!({"kind":"c02-file","export_hex": hex(&export)}));
+        } else if let Some(bin) = &bin {
+            // the front door: `adlt convert <file> -o <out>` must write exactly these bytes, and exporting
+            // that export must be byte identical
+            if i % bin_every == 0 && !c.serial && c.bytes.len() < 4_000_000 {
+                binary_export(&mut rep, bin, &c, &export);
+            }
         }
     }
     rep
+}
+
+fn run_convert(bin: &str, input: &std::path::Path, output: &std::path::Path) -> Option<(bool, String)> {
+    let child = std::process::Command::new(bin)
+        .arg("convert")
+        .arg(input)
+        .arg("-o")
+        .arg(output)
+        .env("TZ", "UTC")
+        .stdin(std::process::Stdio::null())
+        .stdout(std::process::Stdio::null())
+        .stderr(std::process::Stdio::piped())
+        .spawn()
+        .ok()?;
+    let out = child.wait_with_output().ok()?;
+    Some((out.status.success(), String::from_utf8_lossy(&out.stderr).chars().take(400).collect()))
+}
+
+/// export through the real binary: file -> a.dlt -> b.dlt; a == expected export (to_write of every parsed message), b == a
+fn binary_export(rep: &mut Report, bin: &str, c: &StreamCase, export: &[u8]) {
+    let dir = match tempfile::tempdir() {
+        Ok(d) => d,
+        Err(_) => {
+            rep.inc("inconclusive_tempdir");
+            return;
+        }
+    };
+    let f = dir.path().join("in.dlt");
+    let a = dir.path().join("a.dlt");
+    let b = dir.path().join("b.dlt");
+    if std::fs::write(&f, &c.bytes).is_err() {
+        rep.inc("inconclusive_tempdir");
+        return;
+    }
+    let replay = || json!({"kind":"c02-bin","msg": crate::c01::case_replay(c, 0, "cursor")});
+    match run_convert(bin, &f, &a) {
+        None => {
+            rep.inc("inconclusive_bin_spawn");
+            return;
+        }
+        Some((false, err)) => {
+            let class = if err.contains("panicked at") { "bin:export-panicked" } else { "bin:export-failed" };
+            rep.violation(class, format!("adlt convert in.dlt -o a.dlt failed: {}", err), replay());
+            return;
+        }
+        Some((true, _)) => {}
+    }
+    let a_bytes = std::fs::read(&a).unwrap_or_default();
+    rep.inc("bin_exports");
+    if a_bytes != export {
+        // locate the first differing message for the detail
+        let at = a_bytes.iter().zip(export.iter()).position(|(x, y)| x != y).unwrap_or(a_bytes.len().min(export.len()));
+        rep.violation("bin:export-differs", format!("adlt convert -o wrote {} bytes, expected {} (messages written one by one); first difference at byte {}", a_bytes.len(), export.len(), at), replay());
+        return;
+    }
+    match run_convert(bin, &a, &b) {
+        None => rep.inc("inconclusive_bin_spawn"),
+        Some((false, err)) => rep.violation("bin:export-failed", format!("adlt convert a.dlt -o b.dlt failed: {}", err), replay()),
+        Some((true, _)) => {
+            let b_bytes = std::fs::read(&b).unwrap_or_default();
+            rep.inc("bin_export_of_export");
+            if b_bytes != a_bytes {
+                rep.violation("bin:export-of-export", format!("{} vs {} bytes", b_bytes.len(), a_bytes.len()), replay());
+            }
+        }
+    }
 }
